@@ -242,6 +242,20 @@ func Main() {
 			os.Exit(2)
 		}
 		os.Exit(f(os.Args[3:]))
+	case "parts": // one line per check: level and parts with quick/thorough sizes
+		var ids []string
+		for id := range registry {
+			ids = append(ids, id)
+		}
+		sort.Strings(ids)
+		for _, id := range ids {
+			c := registry[id]
+			var ps []string
+			for _, p := range c.Parts {
+				ps = append(ps, fmt.Sprintf("%s %d/%d", p.Name, p.Quick, p.Thor))
+			}
+			fmt.Printf("| %s | %s | %s |\n", id, c.Level, strings.Join(ps, "; "))
+		}
 	case "list":
 		var ids []string
 		for id := range registry {
